@@ -5,6 +5,9 @@ import importlib
 from typing import Dict, Iterable
 
 
+_ACTIVE: set = set()
+
+
 class _Filter:
     def __init__(self, rep, mapping: Dict[str, str], only=None):
         self.rep, self.mapping, self.only = rep, mapping, only
@@ -38,9 +41,14 @@ def reuse(repo, rep, module: str, mapping: Dict[str, str], only=None) -> None:
     mod = importlib.import_module(f"rules.{module}")
     from sa.model import AnalysisError
 
+    if module in _ACTIVE:
+        return  # mutual re-use (c02 <-> c08): the inner run does not take instances from the module that is re-using it
+    _ACTIVE.add(module)
     try:
         mod.run(repo, _Filter(rep, mapping, only), "quick")
     except AnalysisError as e:
         # the source rules stopped (a lost anchor somewhere in that module): the re-used rules were not (fully) evaluated - that is an
         # analysis error of *these* rule ids only; whatever else the caller checks goes on
         rep.error(f"{'/'.join(sorted(set(mapping.values())))}: the rules of {module} they are taken from could not be evaluated ({e})")
+    finally:
+        _ACTIVE.discard(module)
